@@ -363,3 +363,62 @@ def scalar_value_root(v, operand):
     if t is not None and callee_is(t, trait="MomTropFloat", name="to_f64"):
         return v.root(t["args"][0])
     return r
+
+
+SIG_TY = "alloc::vec::Vec<alloc::vec::Vec<isize>>"
+
+
+def signature_wiring(ctx, R, rule):
+    """The loop signature the kernels see is the caller's: build_sampler stores its signature argument untouched, and the x-space entry
+    hands `&self.<that field>` to sample."""
+    f = ctx.facts
+    try:
+        bs, e1, s = R.build_sampler(), R.xspace_entry(), R.sample()
+    except RoleLost as ex:
+        return ctx.lost(rule, str(ex))
+    ctx.fn(bs.path)
+    v = Vals(bs)
+    sig_params = [l["i"] for l in bs.locals[1:bs.arg_count + 1] if l["ty"].replace(" ", "").startswith(SIG_TY)]
+    aggs = list(pat.aggregates(bs, "SampleGenerator"))
+    if len(sig_params) != 1 or not aggs:
+        return ctx.lost(rule, "signature parameter / SampleGenerator aggregate in build_sampler (%d, %d)" % (len(sig_params), len(aggs)), bs.path)
+    sp_ = sig_params[0]
+    field = None
+    for bj, sj, st in aggs:
+        rv = st["rv"]
+        for i, op in enumerate(rv["ops"]):
+            if op["k"] in ("copy", "move") and bs.local_ty(op["place"]["l"]).replace(" ", "").startswith(SIG_TY) and not op["place"]["p"]:
+                field = rv["fields"][i]
+                r = v.root(op)
+                ctx.ob(rule, "SampleGenerator.%s is build_sampler's signature argument itself" % field,
+                       r.kind == "arg" and r.base[1] == sp_ and not r.path, bs.path, "signature-stored-unmodified", where=pat.where(st),
+                       detail="the stored signature is %r, not the caller's argument: every formula in terms of the caller's signature (L matrix, u "
+                              "vectors, edge momenta) is then evaluated on a different matrix while the caller's shifts are kept" % (r,))
+    if field is None:
+        return ctx.lost(rule, "signature field of SampleGenerator", bs.path)
+    # the argument is not modified in place before it is stored
+    muts = []
+    for bi, si, st in pat.stmts(bs):
+        rv = st["rv"]
+        if rv["k"] == "ref" and rv.get("mut") and rv["place"]["l"] == sp_:
+            muts.append(pat.where(st))
+        if st["place"]["l"] == sp_:
+            muts.append(pat.where(st))
+    ctx.ob(rule, "the signature argument is neither reassigned nor mutably borrowed in build_sampler", not muts, bs.path, "signature-not-mutated",
+           detail="mutable uses at %s" % muts)
+    # entry -> sample
+    ctx.fn(e1.path)
+    ve = Vals(e1)
+    sites = [(bi, t) for bi, t, cb in R.local_callees(e1) if cb is s]
+    if len(sites) != 1:
+        return ctx.lost(rule, "single call of sample in the x-space entry", e1.path)
+    bi, t = sites[0]
+    ok = False
+    det = "no argument of signature type"
+    for ai, a in enumerate(t["args"]):
+        pty = s.local_ty(ai + 1).replace(" ", "")
+        if "alloc::vec::Vec<isize>" in pty:
+            r = ve.root(a)
+            det = "argument root %r" % (r,)
+            ok = r.kind == "arg" and r.base[1] == 1 and r.path == (field,)
+    ctx.ob(rule, "the entry hands &self.%s to sample" % field, ok, e1.path, "signature-forwarded", where=pat.where(t), detail=det)
